@@ -1,0 +1,70 @@
+//go:build verif
+
+package nebula
+
+import (
+	"log/slog"
+	"net/netip"
+
+	"github.com/gaissmai/bart"
+	"github.com/miekg/dns"
+	"github.com/slackhq/nebula/cert"
+)
+
+// VerifDNS bundles a dnsServer with the hostmap and interface stub it is attached to, for the
+// verification harness (engine dns). Thin accessors only.
+type VerifDNS struct {
+	ds *dnsServer
+	hm *HostMap
+	f  *Interface
+}
+
+// VerifNewDNS builds a dnsServer over a fresh hostmap. selfCert / selfAddrs may be nil / empty (no PKI).
+func VerifNewDNS(selfCert cert.Certificate, selfAddrs []netip.Addr) *VerifDNS {
+	l := slog.New(slog.DiscardHandler)
+	hm := newHostMap(l)
+	ds := &dnsServer{
+		l:       l,
+		dnsMap4: make(map[string]netip.Addr),
+		dnsMap6: make(map[string]netip.Addr),
+		hostMap: hm,
+	}
+	if selfCert != nil {
+		tbl := new(bart.Lite)
+		for _, a := range selfAddrs {
+			tbl.Insert(netip.PrefixFrom(a, a.BitLen()))
+		}
+		cs := &CertState{myVpnAddrs: selfAddrs, myVpnAddrsTable: tbl}
+		if selfCert.Version() == cert.Version1 {
+			cs.v1Cert = selfCert
+			cs.initiatingVersion = cert.Version1
+		} else {
+			cs.v2Cert = selfCert
+			cs.initiatingVersion = cert.Version2
+		}
+		pki := &PKI{}
+		pki.cs.Store(cs)
+		ds.pki = pki
+	}
+	return &VerifDNS{ds: ds, hm: hm, f: &Interface{dnsServer: ds}}
+}
+
+func (v *VerifDNS) SetEnabled(b bool) { v.ds.enabled.Store(b) }
+func (v *VerifDNS) ClearRecords()     { v.ds.clearRecords() }
+func (v *VerifDNS) SeedSelf()         { v.ds.seedSelf() }
+
+// AddHostInfo runs HostMap.unlockedAddHostInfo (under the hostmap lock) for a hostinfo with the given
+// peer certificate, overlay addresses and index ids: the path a completed handshake takes.
+func (v *VerifDNS) AddHostInfo(peer *cert.CachedCertificate, vpnAddrs []netip.Addr, localIndex, remoteIndex uint32) {
+	hi := &HostInfo{
+		ConnectionState: &ConnectionState{peerCert: peer},
+		vpnAddrs:        vpnAddrs,
+		localIndexId:    localIndex,
+		remoteIndexId:   remoteIndex,
+	}
+	v.hm.Lock()
+	v.hm.unlockedAddHostInfo(hi, v.f)
+	v.hm.Unlock()
+}
+
+func (v *VerifDNS) Handle(w dns.ResponseWriter, r *dns.Msg) { v.ds.handleDnsRequest(w, r) }
